@@ -294,15 +294,20 @@ def check_query(q, funcs, enums, tier, logdir):
             pp = next(pp for (_, pp, _) in bad if pp.outcome == "untranslatable")
             res.update(verdict="not-translatable", why="a feasible path contains a construct outside the translator: " + str(pp.detail))
             return res
-        i, p, post = bad[0]
-        s2 = list(head[:4]) + ["(assert %s)" % and_(p.state.conds)] + (["(assert (not %s))" % post] if post is not None else []) + ["(check-sat)"]
-        if inputs:
-            s2.append("(get-value (%s))" % " ".join(inputs))
-        out2, _ = run_solver("\n".join(s2) + "\n", "z3", cap)
-        mv = parse_solver_output(out2, 1, bool(inputs))
-        model = mv[0][1] if mv and mv[0][0] == "sat" else None
-        bad = [(i, p, model)]
-        i, p, model = bad[0]
+        # models of the first few violated obligations: each is a candidate input for the native replay (a candidate
+        # that does not reproduce - e.g. an arithmetic panic only an over-approximated callee result can reach - must
+        # not hide a later one that does)
+        models = []
+        for (bi, bp, bpost) in bad[:4]:
+            s2 = list(head[:4]) + ["(assert %s)" % and_(bp.state.conds)] + (["(assert (not %s))" % bpost] if bpost is not None else []) + ["(check-sat)"]
+            if inputs:
+                s2.append("(get-value (%s))" % " ".join(inputs))
+            out2, _ = run_solver("\n".join(s2) + "\n", "z3", cap)
+            mv = parse_solver_output(out2, 1, bool(inputs))
+            models.append(mv[0][1] if mv and mv[0][0] == "sat" else None)
+        res["models"] = [dict(path=bi, outcome=bp.outcome, detail=bp.detail, model=m) for (bi, bp, _), m in zip(bad[:4], models)]
+        i, p, _ = bad[0]
+        model = models[0]
         res["counterexample_path"] = dict(index=i, outcome=p.outcome, detail=p.detail)
         res["model"] = {k: v for k, v in (model or {}).items()}
         res.update(verdict="candidate", why="path %d (%s%s) violates the post-condition" % (i, p.outcome, (": " + p.detail) if p.detail else ""))
@@ -386,13 +391,16 @@ def replay(q, r, prop, logdir):
         return r
     hname, argfn = rp
     h = next(x for x in spec.HARNESSES if x.name == hname)
+    argsets = []
     try:
-        argsets = argfn(r.get("model") or {})
+        for mm in ([x.get("model") for x in r.get("models", [])] or [r.get("model")]):
+            a = argfn(mm or {})
+            for one in ([a] if isinstance(a, dict) else a):
+                if one not in argsets:
+                    argsets.append(one)
     except Exception as e:  # noqa
         r.update(verdict="inconclusive", why=r["why"] + " (cannot map model to replay arguments: %r)" % (e,))
         return r
-    if isinstance(argsets, dict):
-        argsets = [argsets]
     # where opaque callees stand between the model and concrete inputs, the query names a few
     # candidate argument sets; the violation is reported only if one of them fails natively
     out, vals = None, None
